@@ -633,6 +633,15 @@ func TestCheck(t *testing.T) {
 		}
 	}
 
+	// harness self-check: every scenario offers a Compile with the options of its first Compile
+	for si := range scenarios {
+		for init := 0; init < scenarios[si].nInit; init++ {
+			if sp := newLateSpace(si, init, false); sp.sameK < 0 || len(sp.ks) != len(scenarios[si].variants) {
+				t.Fatalf("harness: scenario %s: Compile operations incomplete (%d of %d, same=%d)", scenarios[si].name, len(sp.ks), len(scenarios[si].variants), sp.sameK)
+			}
+		}
+	}
+
 	// ---- division of labour between the children
 	nRand := 1
 	if cfg.Shards >= 12 {
